@@ -400,6 +400,16 @@ def simplify_unitary(expr: e.Expr, t_name: str,
                     all(s not in target and idx_counter[s] == 2
                         for s in idx1):
                 continue
+            # The same holds if the remaining contracted index only occurs
+            # within polynoms (a*b + c*d)^n apart from the unitary tensors:
+            # not every term of the polynom has to hold the index.
+            if delta is S.One and idx1 == idx2 and any(
+                    s not in target and idx_counter[s] > 2 and
+                    not any(s in o.idx for i, o in enumerate(obj)
+                            if i not in (i1, i2) and
+                            not isinstance(o, e.Polynom))
+                    for s in idx1):
+                continue
 
             # lower the exponent of the 2 unitary tensors and
             # add the created delta to the term
@@ -419,7 +429,12 @@ def simplify_unitary(expr: e.Expr, t_name: str,
                     continue
                 else:
                     new_term *= o
-            return simplify_term_unitary(new_term.terms[0])
+            # the product is not necessarily a single term: a polynom that is
+            # the only object left becomes an expression with several terms
+            simplified = e.Expr(0, **new_term.assumptions)
+            for new_t in new_term.terms:
+                simplified += simplify_term_unitary(new_t)
+            return simplified
         # could not find simplification -> return
         return term
 
